@@ -301,6 +301,34 @@ fn random_grammar(rng: &mut Rng, name: &str) -> (String, Vec<&'static str>) {
             items.push(sym("ent_stmt"));
         }
     }
+    // alias CHAINS over a default-aliased name: `ch_b` is ALWAYS used as alias($.ch_b, $.ch_a), so `ch_a` becomes its
+    // default alias (the symbol `ch_b` is published under the name `ch_a`) and the NAME `ch_b` is free again; another
+    // rule `ch_c` is used as alias($.ch_c, $.ch_b) and also un-aliased.  The alias `ch_b` must be a symbol of its own,
+    // not the (renamed) symbol of the rule `ch_b`.  Rules or tokens, named or anonymous aliases.
+    if rng.chance(1, 2) {
+        feats.push("alias-chain-over-default-aliased-name");
+        let as_tokens = rng.chance(1, 2);
+        if as_tokens {
+            rules.push(("ch_b".into(), token(seq(vec![lit("@"), pat("[0-9]+")]))));
+            rules.push(("ch_c".into(), token(seq(vec![lit("$"), pat("[a-z]+")]))));
+        } else {
+            rules.push(("ch_b".into(), seq(vec![lit("@["), field("n", sym("number")), lit("]")])));
+            rules.push(("ch_c".into(), seq(vec![lit("$<"), rep(sym("identifier")), lit(">")])));
+        }
+        let named = rng.chance(3, 4);
+        rules.push(("cha_stmt".into(), seq(vec![lit("cha"), alias(sym("ch_b"), "ch_a", named), lit(";")])));
+        let second = if rng.chance(1, 2) { alias(sym("ch_c"), "ch_b", named) } else { field("link", alias(sym("ch_c"), "ch_b", named)) };
+        rules.push(("chb_stmt".into(), seq(vec![lit("chb"), second, lit(";")])));
+        rules.push(("chc_stmt".into(), seq(vec![lit("chc"), sym("ch_c"), opt(alias(sym("ch_b"), "ch_a", named)), lit(";")])));
+        items.push(sym("cha_stmt")); items.push(sym("chb_stmt")); items.push(sym("chc_stmt"));
+        if rng.chance(1, 3) {
+            // a third link: `ch_d` aliased to the (free) name `ch_c`?  no — `ch_c` is used un-aliased, so this is an
+            // alias to an EXISTING kind (node types merge)
+            rules.push(("ch_d".into(), seq(vec![lit("%%"), sym("number")])));
+            rules.push(("chd_stmt".into(), seq(vec![lit("chd"), alias(sym("ch_d"), "ch_c", true), lit(";")])));
+            items.push(sym("chd_stmt"));
+        }
+    }
     // a field list that contains the expression rule (a SUPERTYPE in a third of the grammars) next to ANONYMOUS
     // literals whose text equals the name of one of its (named) subtypes: `type: choice($._expr, "number", …)`
     if rng.chance(1, 2) {
